@@ -1,19 +1,19 @@
 package main
 
 import (
+	_ "verifharness/adapter"
+	_ "verifharness/conc"
 	"verifharness/core"
+	_ "verifharness/crash"
+	_ "verifharness/fifo"
+	_ "verifharness/immunity"
+	_ "verifharness/lru"
+	_ "verifharness/persist"
 	_ "verifharness/pool"
+	_ "verifharness/shardid"
+	_ "verifharness/stress"
 	_ "verifharness/timecache"
 	_ "verifharness/unit"
-	_ "verifharness/persist"
-	_ "verifharness/fifo"
-	_ "verifharness/lru"
-	_ "verifharness/adapter"
-	_ "verifharness/immunity"
-	_ "verifharness/crash"
-	_ "verifharness/conc"
-	_ "verifharness/stress"
-	_ "verifharness/shardid"
 )
 
 func main() { core.Main() }
